@@ -125,11 +125,6 @@ Proof.
   - eapply FI_drop_attrs; eauto.
 Qed.
 
-(* every node of the copy is fresh *)
-Inductive FreshTree (lo : N) (w : world) : id -> Prop :=
-| FT_node c nc : w_nodes w c = Some nc -> lo <= c ->
-    (forall x, In (CElem x) (n_content nc) -> FreshTree lo w x) -> FreshTree lo w c.
-
 Lemma FiltR_fresh lo v w w' :
   (forall p s c, FiltR lo v w w' p s c -> FreshTree lo w' c) /\
   (forall c ty l l', FiltRItems lo v w w' c ty l l' -> forall x, In (CElem x) l' -> FreshTree lo w' x).
